@@ -50,8 +50,16 @@ def replay_slice(ctx, rec, lena):
             # the slice must consist of the very objects at the selected positions
             objs = [ODD_VALUES[i % len(ODD_VALUES)] for i in range(n)]
             try:
-                out2 = list(lena.flow.Slice(*args).run(iter(objs)))
+                # the same element object is run a second time (RunIf, Split and users reuse elements):
+                # run() keeps no state between runs; the flow may also be a re-iterable container
+                out2 = list(el.run(iter(objs)))
                 same = len(out2) == len(expected) and all(x is objs[i] for x, i in zip(out2, expected))
+                out3 = list(el.run(list(range(n))))
+                if out3 != expected:
+                    bad = True
+                    ctx.violation("Slice.run:container-flow:branch=%s" % rec["branch"],
+                                  {"args": repr(args), "flow": "list(range(%d))" % n, "expected": expected,
+                                   "observed": out3})
             except Exception as exc:       # noqa
                 out2, same = "raised " + exc_name(exc), False
             if not same:
@@ -119,6 +127,14 @@ def replay_iter(ctx, rec, lena):
             rv = lena.flow.Reverse()
             got["Reverse"] = list(rv.run(iter(range(n))))
             got["Reverse:second-run"] = list(rv.run(iter(range(n))))
+            # two runs of one element alive at the same time (an element used in two branches or
+            # pipelines): each run has its own buffer
+            g1, g2 = rv.run(iter(range(n))), rv.run(iter(range(100, 100 + n + 1)))
+            first = list(itertools.islice(g1, 1))
+            other = list(g2)
+            got["Reverse:interleaved-runs"] = first + list(g1)
+            if other != list(range(100 + n, 99, -1)):
+                got["Reverse:interleaved-runs"] = {"second generator": other}
         elif kind == "chain":
             its = [[(i + 1, j) for j in range(m)] for i, m in enumerate((p1, p2, n))]
             exp = [tuple(x) for x in exp]
@@ -152,6 +168,10 @@ def replay_iter(ctx, rec, lena):
             rc = lena.flow.RunningChunkBy(p1)
             got["RunningChunkBy(tuple)"] = list(rc.run(iter(range(n))))
             got["RunningChunkBy(tuple):second-run"] = list(rc.run(iter(range(n))))
+            g1, g2 = rc.run(iter(range(n))), rc.run(iter(range(50, 50 + n)))
+            first = list(itertools.islice(g1, 1))
+            list(g2)
+            got["RunningChunkBy(tuple):interleaved-runs"] = first + list(g1)
             l = list(lena.flow.RunningChunkBy(p1, container=list, from_iterable=True).run(range(n)))
             got["RunningChunkBy(list)"] = [tuple(w) for w in l]
             nt = collections.namedtuple("W", ["f%d" % i for i in range(p1)])
